@@ -1453,7 +1453,10 @@ func placementPass(c *checker) (placements int) {
 	for _, cfg := range []struct {
 		name  string
 		vgprs int
-	}{{"vgprs16384-builder-default", 16384}, {"vgprs32768-mi300a", 32768}, {"vgprs8192", 8192}} {
+	}{{"vgprs16384-builder-default", 16384}, {"vgprs32768-mi300a", 32768}, {"vgprs8192", 8192},
+		// per-lane shares that are not powers of two (384, 192 and 320 registers): a lane stride derived by shifting
+		// instead of multiplying is wrong only here
+		{"vgprs24576", 24576}, {"vgprs12288", 12288}, {"vgprs20480", 20480}} {
 		perLane := cfg.vgprs / 64
 		for _, nV := range []int{24, 64, 128} {
 			nWf := perLane / nV
